@@ -707,6 +707,7 @@ struct Harness
                 if (!ck.ok() || requests == 0) { continue; } // violations of the fault-free call are C04's business
                 succ_key = encode(L);
             }
+            if (o0.code == OP_SWAP) { requests = 1; } // only the constructor of the other vector belongs to the operation under test
             for (long k = 0; k < requests; ++k)
             {
                 for (int from = 0; from < 2; ++from)
@@ -761,7 +762,7 @@ struct Harness
         case OP_PUSH_BACK: return F(push_back)(c) == nullptr;
         case OP_PUSH_FORE: return F(push_fore)(c) == nullptr;
         case OP_INSERT: return F(insert)(c, A(o.a)) == nullptr;
-        case OP_PUSH_SORT: fill_elem(blk, (unsigned char)(o.a << 4), c->siz_); return F(push_sort)(c, blk, cmp_key) == nullptr;
+        case OP_PUSH_SORT: fill_elem(blk, (unsigned char)((o.a & 15) << 4), c->siz_); return F(push_sort)(c, blk, cmp_key) == nullptr;
         case OP_STORE: return F(store)(c, A(o.a), blk, (a_size)o.b, o.c ? copy_elem : nullptr) == A_OMEMORY;
 #if defined(SEQ_VEC)
         case OP_SETN: return a_vec_setn(c, (a_size)o.a, o.b ? log_dtor : nullptr) == A_OMEMORY;
